@@ -103,8 +103,7 @@ def run_c27(ctx, pid):
     quick = ctx.quick
     rng = ctx.rng
     pool = concurrent.futures.ThreadPoolExecutor(max_workers=3 if quick else 4)
-    late_known = ctx.is_known("LateSubmit")
-    asis = '{"LateSubmit"}' if late_known else "{}"
+    late_known = ctx.is_known("LateSubmit")     # None since the defect is repaired; kept so that a re-opened finding is reported as such
 
     # ---- 1. design level
     design = ["MC_Coalescer_q1.cfg", "MC_Coalescer_q2.cfg", "MC_Coalescer_q3.cfg"] if quick else \
@@ -122,13 +121,11 @@ def run_c27(ctx, pid):
             [("a", 1, 10 ** 9), ("b", 1, 10 ** 9), ("c", 2, 10 ** 9), ("d", 1, 9000), ("e", 2, 9000)]
     f_dumps = []
     for tag, b, nsel in dumps:
-        name, path = _cfg_with(ctx, "Dump_Coalescer_%s.cfg" % tag, "Dump_Coalescer_%s.cfg" % tag, {'Defects = {"LateSubmit"}': "Defects = " + asis})
-        f_dumps.append((tag, b, nsel, pool.submit(ctx.tlc, SPEC, name, module="MC_Coalescer", timeout=900 if quick else 3000,
-                                                   dump_dot=True, files={name: path}, workers=2)))
+        f_dumps.append((tag, b, nsel, pool.submit(ctx.tlc, SPEC, "Dump_Coalescer_%s.cfg" % tag, module="MC_Coalescer",
+                                                   timeout=900 if quick else 3000, dump_dot=True, workers=2)))
     # larger configuration: TLC random walks
-    gname, gpath = _cfg_with(ctx, "Gen_Coalescer.cfg", "Gen_Coalescer.cfg", {'Defects = {"LateSubmit"}': "Defects = " + asis})
-    f_gen = pool.submit(ctx.tlc, SPEC, gname, module="Gen_Coalescer", simulate="num=%d" % (300 if quick else 4000),
-                        deadlock_check=False, timeout=900 if quick else 2400, workers=1, files={gname: gpath}, depth=200)
+    f_gen = pool.submit(ctx.tlc, SPEC, "Gen_Coalescer.cfg", module="Gen_Coalescer", simulate="num=%d" % (300 if quick else 4000),
+                        deadlock_check=False, timeout=900 if quick else 2400, workers=1, depth=200)
 
     exe = ctx.build("remoting")
     total = collections.Counter()
@@ -178,6 +175,7 @@ def run_c27(ctx, pid):
                 for mb, nc, nm, n in ((1, 3, 4, 150 if quick else 2500), (2, 4, 6, 150 if quick else 2500), (4, 6, 8, 100 if quick else 1500))]
         cmds.append(["sys-tell", "8", "30", "3", str(20 if quick else 400), str(ctx.seed)])
         cmds.append(["sys-dead", "4", "12", str(5 if quick else 60), str(ctx.seed)])
+        cmds.append(["coal-witness", str(6 if quick else 40)])      # counterexample schedule of the repaired LateSubmit defect
         rows, rs_all = [], collections.Counter()
         for i, argv in enumerate(cmds):
             t = ctx.tmp("coal-free-%d-%s.ndjson" % (i, argv[0]))
@@ -200,7 +198,7 @@ def run_c27(ctx, pid):
     if f_single.result().violated != "NoSilentDrop":
         raise vlib.Infra("Coalescer.tla with Defects={SingleDrain} no longer violates NoSilentDrop (spec changed?)")
     if f_late.result().violated != "NoSilentDrop":
-        raise vlib.Infra("Coalescer.tla with Defects={LateSubmit} no longer violates NoSilentDrop (stale finding / spec changed?)")
+        raise vlib.Infra("Coalescer.tla with Defects={LateSubmit} no longer violates NoSilentDrop (spec changed?)")
 
     assumptions = [
         "a Go select with several ready cases picks one at random: a replay follows a walk only while the real choice "
@@ -209,8 +207,9 @@ def run_c27(ctx, pid):
         "the 5 s flush time-out is not exercised",
         "in the puppet replays the handler registered with WithCoalescingErrorHandler records the failed batch; the real "
         "dead-letter publication (enqueueCoalescedFailure) is exercised end to end only for an unreachable endpoint (sys-dead)",
-        "puppet replays never park a thread inside a blocking select (a select step is taken only when a case is ready); "
-        "really blocked submitters and writer are exercised by the free-running histories",
+        "puppet replays never park a thread inside a blocking select / lock (a step is taken only when it can complete); really "
+        "blocked submitters, writer and closer are exercised by the free-running histories and by the witness schedule of the "
+        "repaired LateSubmit defect (Close must be held back while a submit is in flight)",
     ]
     known_hits = collections.Counter()
     violations = []
@@ -455,17 +454,14 @@ def run_c29(ctx, pid):
     rng = ctx.rng
     pool = concurrent.futures.ThreadPoolExecutor(max_workers=3 if quick else 4)
     tmo = 900 if quick else 3000
-    # finding ids are per property: the coalescer's LateSubmit belongs to C27; here its graph is only a walk source
-    asis = '{"LateSubmit"}'
     f_design = pool.submit(ctx.tlc_must_hold, SPEC, "MC_Meta_q.cfg" if quick else "MC_Meta_t.cfg", module="MetaCoalescer",
                            timeout=tmo, workers=2 if quick else 6)
     f_batchmd = pool.submit(ctx.tlc, SPEC, "MC_Meta_batchmd.cfg", module="MetaCoalescer", timeout=900, expect_fail=True, workers=2)
     f_mixed = pool.submit(ctx.tlc, SPEC, "MC_Meta_mixed.cfg", module="MetaCoalescer", timeout=900, expect_fail=True, workers=2)
     f_dump = pool.submit(ctx.tlc, SPEC, "Dump_Coalescer_c.cfg" if quick else "Dump_Coalescer_e.cfg", module="MC_Coalescer",
                          timeout=tmo, dump_dot=True, workers=2)
-    gname, gpath = _cfg_with(ctx, "Gen_Coalescer.cfg", "Gen_Coalescer.cfg", {'Defects = {"LateSubmit"}': "Defects = " + asis})
-    f_gen = pool.submit(ctx.tlc, SPEC, gname, module="Gen_Coalescer", simulate="num=%d" % (300 if quick else 3000),
-                        deadlock_check=False, timeout=tmo, workers=1, files={gname: gpath}, depth=200)
+    f_gen = pool.submit(ctx.tlc, SPEC, "Gen_Coalescer.cfg", module="Gen_Coalescer", simulate="num=%d" % (300 if quick else 3000),
+                        deadlock_check=False, timeout=tmo, workers=1, depth=200)
     exe = ctx.build("remoting")
     total = collections.Counter()
     samples, futs = [], []
